@@ -2,8 +2,8 @@
    quietly weakened; the lemmas live in Proofs_*.v, the model in Model.v; Gen/C07.v is
    regenerated from /repo on every run (constant + source text of the helpers, tied in
    Proofs_shape.v).  Names are label lists, root first; [canon] folds ASCII case. *)
-From Sdns Require Import Common.Base Gen.C07 C07.Model C07.Proofs_names C07.Proofs_exchange
-  C07.Proofs_glue C07.Proofs_referral C07.Proofs_contain C07.Proofs_chase C07.Proofs_gluehist C07.Proofs_local C07.Proofs_fold C07.Proofs_zone C07.Proofs_sub C07.Proofs_gen C07.Proofs_gluename C07.Proofs_twosite C07.Proofs_deleg C07.Proofs_min C07.Proofs_minname C07.Proofs_filter C07.Proofs_shape.
+From Sdns Require Import Common.Base Common.GoList Gen.C07 C07.Model C07.Proofs_names C07.Proofs_exchange
+  C07.Proofs_glue C07.Proofs_referral C07.Proofs_contain C07.Proofs_chase C07.Proofs_gluehist C07.Proofs_local C07.Proofs_fold C07.Proofs_zone C07.Proofs_sub C07.Proofs_gen C07.Proofs_gluename C07.Proofs_twosite C07.Proofs_deleg C07.Proofs_min C07.Proofs_minname C07.Proofs_filter C07.Proofs_info C07.Proofs_shape.
 Open Scope N_scope.
 
 (* A reply is accepted only when it parses, carries the outstanding query's ID and - when the
@@ -468,3 +468,30 @@ Theorem FilterRRsToZone_is_in_zone_answer_on_owners :
     Some (map (fun p => I_RR_other (fst (fst p)) (snd (fst p))) (filter (fun p => is_sub zone (snd p)) l)).
 Proof. exact gen_FilterRRsToZone_owners. Qed.
 Print Assumptions FilterRRsToZone_is_in_zone_answer_on_owners.
+
+(* "A REFERRAL MUST BE ONE COHERENT NS SET, SAME CLASS" - THE LOOP THAT DECIDES IT IS THE MODEL'S (wave 9).  The loop of
+   Resolver.extractDelegationInfo is machine-translated (dns.RR as a sum type, the hostSet map as an association list,
+   strings.EqualFold / ToLower as ASCII models; `info.nsRecord == nil` reads as false, so the generated code is the loop
+   on a state that has its anchor, or on records that are not NS records).  For every run of Authority records - NS
+   records with escape-free owner and target names in any letter case, SOA records, anything else - and every state the
+   model's [dinfo] describes (host set = the model's lower-cased, duplicate-free list; no NS record in the run while no
+   anchor exists) the generated loop ends normally in a state described by [fold_left info_step]: the SOA flag, the
+   coherence verdict (owner equal up to ASCII case AND class equal, else incoherent and the record contributes nothing),
+   the minimum TTL and the host set are the model's.  With validReferral_is_model this closes the referral rule from the
+   Authority section to the verdict, except for the three anchoring statements (text pin gen_extract_anchor_shape). *)
+Theorem extractDelegationInfo_loop_is_model :
+  forall (l : list (I_RR * rr)) hdr cmp qs an ex g i,
+  Forall (fun p => rec_rel (fst p) (snd p)) l -> st_rel g i -> (di_owner i = None -> no_ns l) ->
+  exists g', snd (snd (go_Resolver_extractDelegationInfo_loop1_run (mk_T_Msg hdr cmp qs an (map fst l) ex) g)) = g' /\
+             fst (go_Resolver_extractDelegationInfo_loop1_run (mk_T_Msg hdr cmp qs an (map fst l) ex) g) = GoNext /\
+             st_rel g' (fold_left info_step (map snd l) i).
+Proof. exact gen_extractDelegationInfo_loop. Qed.
+Print Assumptions extractDelegationInfo_loop_is_model.
+
+(* the host-set statement of that loop on its own: info.hosts[strings.ToLower(v.Ns)] = struct{}{} on the association
+   list is the model's add_name (lower-cased, no duplicates, insertion order) *)
+Theorem hostSet_insert_is_add_name :
+  forall hs t, hosts_ok hs -> plain t ->
+  go_map_set (go_list_eqb N.eqb) (host_map hs) (go_ascii_lower (pres t)) true = host_map (add_name t hs) /\ hosts_ok (add_name t hs).
+Proof. exact map_set_add. Qed.
+Print Assumptions hostSet_insert_is_add_name.
